@@ -92,19 +92,22 @@ theorem c02_genesis (g : Genesis) (h : g.wf = true) :
 /-! ### the envelope theorem for power adjustments: an inductive invariant over whole histories
 
   `Lemmas/Quiet.lean`: `M` (the state during a block of a chain all of whose validators are bonded, un-jailed and
-  alive) implies the hypotheses of the refinement theorems; it is preserved by every successful SetPower that fires
-  neither D1 nor D3 (`M_setPower`, through the exact shape of the handler's result) and by every transaction that
-  leaves the state unchanged; the EndBlocker takes it to `G` (`endBlock_G`: nothing but the power table and the recorded
+  alive; applicants wait in the pending list with operators and keys of their own) implies the hypotheses of the
+  refinement theorems; it is preserved by every successful SetPower of an existing validator that fires neither D1 nor
+  D3 (`M_setPower_existing`, through the exact shape of the handler's result), by every admission
+  (`M_setPower_admit`: `AcceptNewValidator` followed by the first assignment — no side condition), by CreateValidator
+  and RemovePending (`M_create`, `M_rmPending`) and by every transaction that leaves the state unchanged; the EndBlocker takes it to `G` (`endBlock_G`: nothing but the power table and the recorded
   total changes), x/slashing's BeginBlocker with present votes and PoA's BeginBlocker (which prunes the entries of the
   last block's SetPowers) take `G` to `M` again; InitChain of every well-formed genesis ends in `G` (`genesis_G`). -/
 
-/-- **C02 and C04 for every power-adjustment history** (`QuietHistory`, decidable form `quietRunB` evaluated by the
-    driver as `QUIET` lines): any well-formed genesis, any number of blocks in which every validator votes, no evidence
-    arrives, and every transaction either leaves the state unchanged (all rejected transactions, bank sends) or is the
-    admin's SetPower of an existing validator that was not re-weighted earlier in the block (no D3) to a power at which
-    it owns no index entry (no D1), the index staying within `MaxValidators` (no D7) and the powers within CometBFT's
-    maximum.  Then the run reaches its end — no block halts, CometBFT refuses no update list — and CometBFT's set equals
-    the chain's own after InitChain and after every block.  No hypothesis about `Pre`: it is derived. -/
+/-- **C02 and C04 for every quiet history** (`QuietHistory`, decidable form `quietRunB` evaluated by the driver as
+    `QUIET` lines): any well-formed genesis, any number of blocks in which every validator votes, no evidence arrives,
+    and every transaction either leaves the state unchanged (all rejected transactions, bank sends) or is a
+    CreateValidator, a RemovePending, the admin's SetPower admitting a pending applicant, or the admin's SetPower of an
+    existing validator that was not re-weighted earlier in the block (no D3) to a power at which it owns no index entry
+    (no D1) — the index staying within `MaxValidators` (no D7) and the powers within CometBFT's maximum.  Then the run
+    reaches its end — no block halts, CometBFT refuses no update list — and CometBFT's set equals the chain's own after
+    InitChain and after every block.  No hypothesis about `Pre`: it is derived. -/
 theorem c02_power_adjustments (g : Genesis) (hw : g.wf = true) (bs : List Block) (hq : QuietHistory g bs) :
     ∃ first steps, run genEnv g bs = some (first, steps, RunEnd.done) ∧ steps.length = bs.length ∧
       Agree first.comet first.app ∧ ∀ st ∈ steps, Agree st.comet st.app :=
